@@ -176,6 +176,22 @@ fn policy_name(p: &Policy) -> &'static str {
     }
 }
 
+/// Only one simulated thread of a worker runs at any time, so the whole worker belongs on one core:
+/// a baton hand-over is then a plain context switch instead of a cross-core wake-up.
+#[cfg(all(target_os = "linux", target_arch = "x86_64", not(miri)))]
+fn pin_to_cpu(cpu: usize) {
+    let mut mask = [0u64; 16];
+    if cpu < 1024 {
+        mask[cpu / 64] |= 1u64 << (cpu % 64);
+        // sched_setaffinity(0, sizeof(mask), &mask); inherited by threads spawned later; failure is harmless
+        unsafe {
+            let _ = futex::syscall(203, 0, std::mem::size_of_val(&mask) as i64, mask.as_ptr() as i64, 0, 0, 0);
+        }
+    }
+}
+#[cfg(not(all(target_os = "linux", target_arch = "x86_64", not(miri))))]
+fn pin_to_cpu(_cpu: usize) {}
+
 fn cmd_batch(args: &[String]) {
     let engine = engine_of(arg(args, "--engine").unwrap_or("s"));
     let tier = arg(args, "--tier").unwrap_or("quick").to_string();
@@ -186,6 +202,9 @@ fn cmd_batch(args: &[String]) {
     let out = arg(args, "--out").map(|s| s.to_string());
     let replay_dir = arg(args, "--replay-dir").unwrap_or("/verif/replays").to_string();
     let wall_budget = arg_u64(args, "--wall-s", 0);
+    if let Some(cpu) = arg(args, "--cpu").and_then(|s| s.parse::<usize>().ok()) {
+        pin_to_cpu(cpu);
+    }
     let keep_digests = args.iter().any(|a| a == "--digests");
     let progress = arg(args, "--progress").map(|s| s.to_string());
     if std::env::var("CELSIM_PANIC_MSG").is_err() {
